@@ -72,25 +72,103 @@ func ruleSortInventory(c *Ctx, r *Report, clause string, pkgPrefixes ...string) 
 	}
 }
 
+// sortOperandDesc names the container that is sorted: the fields, calls and parameters the
+// slice itself comes from. Keys and indices used to pick it out of a map or slice are not
+// part of its identity.
 func sortOperandDesc(v ssa.Value) string {
-	a := sliceOf(v)
-	var parts []string
-	for _, f := range a.fieldNames() {
-		parts = append(parts, "."+f)
-	}
-	for cl := range a.Calls {
-		if cl != "builtin.append" && cl != "builtin.make" {
-			parts = append(parts, cl+"()")
+	parts := map[string]bool{}
+	seen := map[ssa.Value]bool{}
+	var walk func(v ssa.Value, depth int)
+	walk = func(v ssa.Value, depth int) {
+		if v == nil || seen[v] || depth > 30 {
+			return
+		}
+		seen[v] = true
+		switch x := v.(type) {
+		case *ssa.Parameter:
+			if curWorld != nil && x.Parent().Parent() == nil && curWorld.isNewFn(x.Parent()) {
+				for _, o := range curWorld.originValues(x) {
+					if o != v {
+						walk(o, depth+1)
+					}
+				}
+				return
+			}
+			parts["param <"+short(x.Type().String())+">"] = true
+		case *ssa.FreeVar:
+			parts["captured <"+short(x.Type().String())+">"] = true
+		case *ssa.Global:
+			parts["global "+short(x.String())] = true
+		case *ssa.FieldAddr:
+			if f := structFieldVar(x.X.Type(), x.Field); f != nil {
+				parts["."+f.Name()] = true
+			}
+			walk(x.X, depth+1)
+		case *ssa.Field:
+			if f := structFieldVar(x.X.Type(), x.Field); f != nil {
+				parts["."+f.Name()] = true
+			}
+			walk(x.X, depth+1)
+		case *ssa.Lookup:
+			walk(x.X, depth+1)
+		case *ssa.IndexAddr:
+			walk(x.X, depth+1)
+		case *ssa.Index:
+			walk(x.X, depth+1)
+		case *ssa.Slice:
+			walk(x.X, depth+1)
+		case *ssa.UnOp:
+			walk(x.X, depth+1)
+		case *ssa.ChangeType:
+			walk(x.X, depth+1)
+		case *ssa.Convert:
+			walk(x.X, depth+1)
+		case *ssa.MakeInterface:
+			walk(x.X, depth+1)
+		case *ssa.Extract:
+			walk(x.Tuple, depth+1)
+		case *ssa.Phi:
+			for _, e := range x.Edges {
+				walk(e, depth+1)
+			}
+		case *ssa.Alloc:
+			for _, sv := range storedInto(x, 0) {
+				walk(sv, depth+1)
+			}
+		case *ssa.Call:
+			if curWorld != nil {
+				if callee := curWorld.newCallee(x); callee != nil {
+					for _, o := range curWorld.originValues(x) {
+						if o != v {
+							walk(o, depth+1)
+						}
+					}
+					return
+				}
+			}
+			n := calleeName(x)
+			switch n {
+			case "builtin.append":
+				if len(x.Call.Args) > 0 {
+					walk(x.Call.Args[0], depth+1)
+				}
+				return
+			case "builtin.make", "":
+				return
+			}
+			parts[n+"()"] = true
+			if x.Call.IsInvoke() {
+				walk(x.Call.Value, depth+1)
+			} else if len(x.Call.Args) > 0 && x.Call.Signature().Recv() != nil {
+				walk(x.Call.Args[0], depth+1)
+			}
 		}
 	}
-	for p := range a.Params {
-		parts = append(parts, "param <"+short(p.Type().String())+">")
-	}
-	sort.Strings(parts)
+	walk(v, 0)
 	if len(parts) == 0 {
 		return "a local slice"
 	}
-	return strings.Join(parts, " ")
+	return strings.Join(keys(parts), " ")
 }
 
 // isFreshCopy: v is the result of slices.Clone (possibly converted), a copy nobody else holds.
